@@ -40,6 +40,7 @@ int g_in_chain;                /* a FIRST was accepted and not yet ended        
 size_t g_chain_len;            /* payload bytes of the chain so far              */
 size_t g_j;                    /* arbitrary ghost index (fixed by the harness)   */
 uint8_t g_chain_byte;          /* byte g_j of the chain, if seen                 */
+int g_force_match;              /* scenario units: every stored checksum matches */
 unsigned g_last_type;           /* type byte of the last accepted physical record */
 int g_complete;                /* a logical record was completed by the last accepted fragment */
 size_t g_complete_len; uint8_t g_complete_byte; const uint8_t *g_full_ptr;
@@ -80,7 +81,7 @@ static void stub_corruption(ldb_reporter_t *reporter, size_t bytes, int status) 
 /* crc over (type byte ‖ payload) of the physical record whose header starts 6 bytes earlier */
 uint32_t ldb_crc32c_extend(uint32_t z, const uint8_t *xp, size_t xn) {
   uint32_t stored;
-  int match = nondet_int();
+  int match = g_force_match ? 1 : nondet_int();
   __CPROVER_assert(z == 0 && xn >= 1, "reader: crc is computed from scratch over type byte + payload");
   __CPROVER_assert(__CPROVER_r_ok(xp - 6, xn + 6), "reader: header and payload under the crc lie inside the buffer");
   __CPROVER_assert(__CPROVER_same_object(xp, g_store), "reader: crc region is in the backing store");
@@ -166,7 +167,7 @@ static void setup_reader(ldb_reader_t *lr, int checksum) {
   __CPROVER_assume(in_bufoff == (lr->end_offset - in_bufsize) % LDB_BLOCK_SIZE && in_bufoff + in_bufsize <= LDB_BLOCK_SIZE);
   lr->buffer.data = in_bufsize ? g_store + in_bufoff : NULL; lr->buffer.size = in_bufsize; lr->buffer.alloc = 0;
   g_read_calls = 0; g_read_err = 0; g_reports = 0; g_crc_calls = 0; g_crc_match = 0;
-  g_in_chain = 0; g_chain_len = 0; g_complete = 0;
+  g_in_chain = 0; g_chain_len = 0; g_complete = 0; g_force_match = 0;
 }
 
 /* ---------------------------------------------------------- log.phys */
@@ -315,5 +316,40 @@ void h_read_record(void) {
   scratch.data = NULL; scratch.size = 0; scratch.alloc = 0;
   g_j = nondet_size();
   ldb_reader_read_record(&lr, &record, &scratch);
+  CANARY();
+}
+
+/* ---------------------------------------------------------- log.torn (scenario lemma, bounded shape)
+ * A crash while a fragmented record is being written leaves FIRST [MIDDLE] then a
+ * torn header or torn payload at the end of the file.  The reader must return 0,
+ * report NOTHING (C05: recovery does not report corruption) and drop the partial
+ * record.  Shape: one complete fragment (FIRST or MIDDLE continuation), then the tear. */
+void h_torn_tail(void) {
+  ldb_reader_t lr;
+  ldb_slice_t record;
+  ldb_buffer_t scratch;
+  size_t len1, r;
+  int rc;
+  setup_reader(&lr, 1);
+  lr.initial_offset = 0; lr.resyncing = 0; lr.last_offset = 0;
+  lr.reporter = &g_reporter;
+  scratch.data = NULL; scratch.size = 0; scratch.alloc = 0;
+  g_j = nondet_size();
+  /* end of file already seen, the window holds: [hdr FIRST len1][payload len1][torn rest r] */
+  __CPROVER_assume(lr.eof == 1 && lr.buffer.size >= LDB_HEADER_SIZE);
+  len1 = (size_t)lr.buffer.data[4] | ((size_t)lr.buffer.data[5] << 8);
+  __CPROVER_assume(lr.buffer.data[6] == LDB_TYPE_FIRST && LDB_HEADER_SIZE + len1 <= lr.buffer.size);
+  r = lr.buffer.size - LDB_HEADER_SIZE - len1;
+  if (r >= LDB_HEADER_SIZE) {
+    const uint8_t *h2 = lr.buffer.data + LDB_HEADER_SIZE + len1;
+    size_t len2 = (size_t)h2[4] | ((size_t)h2[5] << 8);
+    __CPROVER_assume(LDB_HEADER_SIZE + len2 > r); /* torn payload */
+  }
+  g_force_match = 1;
+  rc = ldb_reader_read_record(&lr, &record, &scratch);
+  CHECK(rc == 0, "torn tail inside a fragmented record: no record is returned");
+  CHECK(g_reports == 0, "torn tail inside a fragmented record: nothing is reported (not a corruption)");
+  CHECK(scratch.size == 0, "torn tail inside a fragmented record: the partial record is discarded");
+  CHECK(lr.eof == 1 && lr.buffer.size == 0, "torn tail: reader is at end of file");
   CANARY();
 }
